@@ -26,9 +26,11 @@ package gtprovider
 
 // Definitions are only ever parsed into the template the loader was created for.
 //@ func NewTemplateLoader [C19]
+//@   keeps stable
 //@   ensures result != nil && fresh(result) && result.template == template && result.muTemplate != nil
 //@ func (*TemplateLoader).Load [C19]
 //@   layers contract trace
+//@   keeps stable
 //@   requires fs != nil
 //@   trace Parse as PARSE
 //@   at_call Parse requires $0 == loader.template
@@ -36,17 +38,25 @@ package gtprovider
 
 //@ func (*Provider).Base [C19]
 //@   layers contract lock
+// of the provider's own state Base touches the base template only
+//@   keeps stable except gtprovider.Provider.baseTemplate
 //@   requires provider.fs != nil
 //@ func (*Provider).Layout [C19]
 //@   layers contract lock
+// Layout touches the base template and the layout table; the view table is left alone
+//@   keeps stable except gtprovider.Provider.baseTemplate, M:string:*template.Template, $maplen
+//@   requires ref(provider.views) != ref(provider.layouts)
+//@   ensures foralls(k, has(provider.views, k) == old(has(provider.views, k)) && provider.views[k] == old(provider.views[k]))
+//@   ensures mapAt(provider.views, ref(provider.views), 0) == old(mapAt(provider.views, ref(provider.views), 0))
 //@   requires provider.fs != nil && provider.layouts != nil
 //@ func (*Provider).View [C19]
 //@   layers contract lock
-//@   requires provider.fs != nil && provider.views != nil && provider.layouts != nil
+//@   requires provider.fs != nil && provider.views != nil && provider.layouts != nil && ref(provider.views) != ref(provider.layouts)
 
 // base: helper definitions are parsed into a new template; the cached value is the returned one
 //@ func (*Provider).base [C19]
 //@   layers contract trace lock
+//@   keeps stable except gtprovider.Provider.baseTemplate
 //@   requires provider.fs != nil
 //@   trace text/template.New as NEW bind created
 //@   trace NewTemplateLoader as LOADER
@@ -59,6 +69,8 @@ package gtprovider
 // layout: a clone of Base() is extended with the layout's files; never the base itself
 //@ func (*Provider).layout [C19]
 //@   layers contract trace lock
+//@   keeps stable except gtprovider.Provider.baseTemplate, M:string:*template.Template, $maplen
+//@   ensures ref(provider.views) != ref(provider.layouts) ==> foralls(k, has(provider.views, k) == old(has(provider.views, k)) && provider.views[k] == old(provider.views[k])) && mapAt(provider.views, ref(provider.views), 0) == old(mapAt(provider.views, ref(provider.views), 0))
 //@   requires provider.fs != nil && provider.layouts != nil
 //@   trace (*Provider).Base as BASE bind based
 //@   trace Clone as CLONE bind cloned
@@ -76,7 +88,7 @@ package gtprovider
 // view: a clone of Layout(layoutName) is extended with the view's files
 //@ func (*Provider).view [C19]
 //@   layers contract trace lock
-//@   requires provider.fs != nil && provider.views != nil && provider.layouts != nil
+//@   requires provider.fs != nil && provider.views != nil && provider.layouts != nil && ref(provider.views) != ref(provider.layouts)
 //@   trace (*Provider).Layout as LAYOUT bind laid
 //@   trace Clone as CLONE bind cloned
 //@   trace NewTemplateLoader as LOADER
